@@ -1,7 +1,7 @@
 //! w_channel: native channel workloads for C06 (lossy FIFO), C07 (drop accounting, cell
 //! exclusivity by hook log) and C08 (never blocks / panics, nested and parked sweeps).
 //!
-//! --mode random | nest | park | signal
+//! --mode random | nest | starve | park | signal
 
 use std::collections::HashSet;
 use std::sync::atomic::{AtomicU64, Ordering};
@@ -100,6 +100,8 @@ fn one_history(cfg: &HistCfg, acc: &mut Acc, label: &str) {
     for p in out.problems.iter() {
         if p.starts_with("WATCHDOG") {
             acc.inconclusive = Some(p.clone());
+        } else if p.starts_with("CAPACITY") {
+            acc.bad06.push(format!("{} [{}]", p, label));
         } else {
             acc.bad08.push(format!("{} [{}]", p, label));
         }
@@ -247,6 +249,43 @@ pub fn main(args: &[String]) -> i32 {
                 }
             }
         }
+        "starve" => {
+            // One operation loses the compare-exchange of a queue loop K times in a row: at each of the first K
+            // arrivals at the loop head (after the queue was read, before the compare-exchange) a nested batch on
+            // the same thread changes that queue. The operation must simply retry until it gets through.
+            let shapes: [(usize, usize, usize, usize); 3] = [(1, 1, 0, 0), (0, 0, 1, 1), (1, 2, 1, 2)];
+            let mut count = 0u64;
+            'outer_s: for s in [site::CH_ENQ_ITER, site::CH_DEQ_ITER] {
+                for k in 1..=12u64 {
+                    for nk in [1u32, 2, 5, 6] {
+                        for prefill in 0..=5usize {
+                            for (shi, sh) in shapes.iter().enumerate() {
+                                count += 1;
+                                if (count + seed) % (1 + (2 * 12 * 4 * 6 * 3) / n.max(1)) != 0 {
+                                    continue;
+                                }
+                                director::clear_rules();
+                                pc::NEST_KIND.store(nk, Ordering::SeqCst);
+                                director::set_rule(s, RuleSpec {
+                                    mode: mode::CALL, nth: 0, budget: k, class_mask: class::PRODUCER | class::CONSUMER,
+                                    ctx: director::ctx::ANY, callf: Some(pc::nested_call), ..Default::default()
+                                });
+                                let cfg = HistCfg { producers: sh.0, sends_per: sh.1, consumers: sh.2, recvs_per: sh.3, heap, prefill, signal: 0, seed };
+                                let label = format!("starve site={} losses={} kind={} prefill={} shape={}", director::site_name(s), k, nk, prefill, shi);
+                                one_history(&cfg, &mut acc, &label);
+                                park_checks += 1;
+                                if pc::NEST_PANICS.load(Ordering::SeqCst) > 0 {
+                                    acc.bad08.push(format!("nested operation panicked [{}]", label));
+                                }
+                                if !acc.bad06.is_empty() || !acc.bad07.is_empty() || !acc.bad08.is_empty() {
+                                    break 'outer_s;
+                                }
+                            }
+                        }
+                    }
+                }
+            }
+        }
         "park" => {
             // K threads parked inside send (holding an index, cell not yet written) or inside recv
             for round in 0..n {
@@ -382,7 +421,7 @@ pub fn main(args: &[String]) -> i32 {
     for b in acc.bad06.iter().take(4) {
         let sig = if b.contains("FIFO") { "fifo-order" } else if b.contains("twice") { "duplicate" } else if b.contains("never sent") { "invented" }
             else if b.contains("empty") { "empty-although-nonempty" } else if b.contains("discarded although") || b.contains("discarded=") { "unjustified-discard" }
-            else if b.contains("lost") { "value-lost" } else { "channel-history" };
+            else if b.contains("lost") { "value-lost" } else if b.contains("CAPACITY") { "capacity-lost" } else { "channel-history" };
         emit_violation("C06", sig, b);
         nviol += 1;
     }
